@@ -85,11 +85,13 @@ func (set *Set) Cardinality() int {
 func (set *Set) GetRandom(count int) []string {
 	keys := set.GetAll()
 
-	if count == 0 {
+	if count == 0 || len(keys) == 0 {
 		return []string{}
 	}
 
-	if internal.AbsInt(count) >= set.Cardinality() {
+	// Only a positive count is bounded by the cardinality: a negative count asks for
+	// exactly |count| elements, repeats allowed.
+	if count > 0 && count >= set.Cardinality() {
 		return keys
 	}
 
